@@ -53,9 +53,10 @@ Definition obs_cmd (o : res val) : res (val * list (path * string)) :=
 
 Definition spec_ok (c : case) : bool :=
   match c with
-  | SgCase tree root _ toks loose obs _ stable extra =>
-      stable && match extra with [] => true | _ => false end
-      && expect_allows (relax loose (spec tree [root] (map (fun t => (snd t, snd (fst t))) toks))) obs
+  | SgCase tree root tb toks loose obs _ stable extra =>
+      existsb (fun t => reads_as_other tb (fst (fst t)) (snd t)) toks          (* the property is silent *)
+      || (stable && match extra with [] => true | _ => false end
+          && expect_allows (relax loose (spec tree [root] (map (fun t => (snd t, snd (fst t))) toks))) obs)
   | CmdCase cname pleaves cf _ _ before name after obs extra =>
       match extra with [] => true | _ => false end
       && expect_allows (cmd_spec cname pleaves (cf_name cf) (cf_table cf) (cf_default cf)
